@@ -128,7 +128,7 @@ type c10known struct {
 
 func (k c10known) String() string {
 	switch k.kind {
-	case 'v', 'b':
+	case 'v', 'b', 'g':
 		return fmt.Sprintf("%d:%c", k.typ, k.kind)
 	default:
 		return fmt.Sprintf("%d:%c%d", k.typ, k.kind, k.n)
@@ -155,6 +155,8 @@ func (s *c10slot) record() Record {
 		return MakePrimitiveRecord(t, &s.vb)
 	case 'b':
 		return MakePrimitiveRecord(t, &s.bl)
+	case 'g':
+		return MakeBigSizeRecord(t, &s.u64)
 	case 'f':
 		switch s.k.n {
 		case 1:
@@ -330,7 +332,8 @@ func (c *c10) stream(kind string, p2p bool, known []c10known, in []byte) {
 		for i, k := range known {
 			if v, ok := tm[Type(k.typ)]; ok && v == nil {
 				all = append(all, rec{k.typ, slots[i].valueBytes()})
-				encRecs = append(encRecs, recs[i])
+				// a fresh Record: MakeBigSizeRecord captures the size at construction
+				encRecs = append(encRecs, slots[i].record())
 			}
 		}
 		for t, v := range tm {
@@ -422,6 +425,36 @@ func (c *c10) bigsize(kind string, p2p bool, in []byte) {
 		pp = 1
 	}
 	c.pf("bs %d %s => %s", pp, c10hx(in), res)
+	c.caseEnd()
+}
+
+// probe: call ONE record decoder directly with a declared length l on a reader
+// that holds more bytes than that, and report how many bytes it consumed.
+// Stream.decode trusts every decoder to consume exactly l bytes.
+func (c *c10) probe(k c10known, in []byte, l uint64) {
+	c.caseStart("probe")
+	res := ""
+	func() {
+		defer func() {
+			if r := recover(); r != nil {
+				res = "panic"
+			}
+		}()
+		slot := &c10slot{k: k}
+		rec := slot.record()
+		cr := &c10cr{r: bytes.NewReader(in)}
+		if err := rec.Decode(cr, l); err != nil {
+			res = fmt.Sprintf("err used=%d", cr.n)
+			return
+		}
+		res = fmt.Sprintf("ok used=%d", cr.n)
+	}()
+	via := 0
+	if k.kind == 'g' {
+		via = 1
+	}
+	name := strings.ReplaceAll(k.String(), ":", "_")
+	c.pf("probe tlv_%s via=%d l=%d %s => %s", name, via, l, c10hx(in), res)
 	c.caseEnd()
 }
 
@@ -531,7 +564,7 @@ func c10encAll(rs []c10rec) []byte {
 var c10kinds = []c10known{
 	{kind: 'v'}, {kind: 'b'}, {kind: 'f', n: 1}, {kind: 'f', n: 2}, {kind: 'f', n: 4},
 	{kind: 'f', n: 8}, {kind: 'f', n: 32}, {kind: 'f', n: 33}, {kind: 'f', n: 64},
-	{kind: 't', n: 2}, {kind: 't', n: 4}, {kind: 't', n: 8},
+	{kind: 't', n: 2}, {kind: 't', n: 4}, {kind: 't', n: 8}, {kind: 'g'},
 }
 
 // value of a length that suits the kind (valid most of the time).
@@ -541,6 +574,8 @@ func (c *c10) valueFor(k c10known) []byte {
 		return c.bytes(c.rng.Intn(40))
 	case 'b':
 		return []byte{byte(c.rng.Intn(2))}
+	case 'g':
+		return c10min(c.u64())
 	case 'f':
 		return c.bytes(k.n)
 	case 't':
@@ -597,6 +632,13 @@ func (c *c10) genRecords() ([]c10rec, []c10known) {
 					v = append([]byte{0}, c.bytes(c.rng.Intn(k.n))...)
 				case 'f':
 					v = c.bytes(k.n + c.rng.Intn(3) - 1)
+				case 'g':
+					// surplus / missing bytes w.r.t. the declared length
+					if c.rng.Intn(2) == 0 {
+						v = append(v, c.bytes(1+c.rng.Intn(3))...)
+					} else {
+						v = c10raw(uint64(c.rng.Intn(0xfd)), 3)
+					}
 				}
 			}
 			rs = append(rs, c10rec{t: t, v: v})
@@ -833,6 +875,24 @@ func TestVerifC10(t *testing.T) {
 	for i := 0; i < 300*mult; i++ {
 		_, known := c.genRecords()
 		c.stream("random", c.rng.Intn(2) == 0, known, c.bytes(c.rng.Intn(30)))
+	}
+
+	// (5) every primitive record decoder: bytes consumed vs declared length
+	for _, k := range c10kinds {
+		k.typ = 1
+		reps := 6 * mult
+		for i := 0; i < reps; i++ {
+			v := c.valueFor(k)
+			in := append(append([]byte{}, v...), c.bytes(9)...)
+			n := uint64(len(v))
+			for _, l := range []uint64{n, n + 1, n + 2, n + 8, 0} {
+				c.probe(k, in, l)
+			}
+			if n > 0 {
+				c.probe(k, in, n-1)
+			}
+			c.probe(k, c.bytes(12), uint64(c.rng.Intn(10)))
+		}
 	}
 
 	// (4) BigSize-typed record (type 0): declared length right / too long /
